@@ -478,8 +478,15 @@ class DBSessionContextManager(object):
                 try: can_commit = db_session.allowed_exceptions(exc)
                 except: rollback_and_reraise(sys.exc_info())
             if can_commit:
-                commit()
-                for cache in _get_caches(): cache.release()
+                try: commit()
+                except: rollback_and_reraise(sys.exc_info())  # after a partial commit the committed databases are still to be released
+                exceptions = []
+                for cache in _get_caches():
+                    try: cache.release()
+                    except: exceptions.append(sys.exc_info())  # the other databases still have to be released
+                if exceptions:
+                    try: reraise(*exceptions[0])
+                    finally: del exceptions
                 assert not local.db2cache
             else:
                 try: rollback()
